@@ -312,6 +312,33 @@ theorem crash_then_run (s : State) (h : Inv' parse s) (op : Op) (hw : OpWF parse
   ⟨(Lemmas.run_refines parse (crash_safe parse s h op hw k).1 cs hcs).2,
    (Lemmas.run_refines parse (crash_safe parse s h op hw k).1 cs hcs).1⟩
 
+/-- A kill inside an expiry sweep (`DeleteExpired` = one `Delete` per expired record): after `j`
+complete deletes and `k` micro-steps of the next one the state satisfies `Inv'` and every record
+that is not expired is untouched. -/
+theorem crash_in_sweep (s : State) (h : Inv' parse s) (now j k : Nat) (id : Id)
+    (hid : (expiredIds s now)[j]? = some id) :
+    let s1 := ((expiredIds s now).take j).foldl (fun s id => exec s (.delete id)) s
+    Inv' parse (crash k s1 (.delete id)) ∧
+    ∀ x, x ∉ expiredIds s now →
+      get x (abs parse (crash k s1 (.delete id))) = get x (abs parse s) := by
+  intro s1
+  obtain ⟨h1, a1⟩ := deleteMany parse h ((expiredIds s now).take j)
+  obtain ⟨hc, _, hframe⟩ := crash_safe parse s1 h1 (.delete id) trivial k
+  refine ⟨hc, fun x hx => ?_⟩
+  have hne : x ≠ id := fun e => hx (e ▸ List.mem_of_getElem? hid)
+  rw [hframe x hne, a1]
+  have hx' : x ∉ (expiredIds s now).take j := fun hm => hx (List.mem_of_mem_take hm)
+  generalize (expiredIds s now).take j = ids at hx'
+  generalize abs parse s = m
+  induction ids generalizing m with
+  | nil => rfl
+  | cons i r ih =>
+    simp only [List.mem_cons, not_or] at hx'
+    simp only [List.foldl_cons]
+    rw [ih hx'.2, get_del_ne i x m (fun e => hx'.1 e.symm)]
+
+example : (expiredIds exState 8000)[0]? = some idA := by decide
+
 /-- **No stuck state**: in every `Inv'` state every micro-step of every operation succeeds (no
 `ErrKeyExists`, no `ErrNotFound`, no missing file). -/
 theorem no_stuck (s : State) (h : Inv' parse s) (op : Op) : stepsOk s (plan s op) = true :=
